@@ -112,16 +112,6 @@ int main()
                 else if (tag == "T") { int id; std::cin >> id; Polygon p = readPoly(std::cin); router->moveShape(sh.at(id), p); }
                 else if (tag == "D") { int id; std::cin >> id; router->deleteShape(sh.at(id)); sh.erase(id); }
                 else if (tag == "C") { int id; double a, b, c, d; std::cin >> id >> a >> b >> c >> d;
-                    if (trans != 0) cn[id] = new ConnRef(router, ConnEnd(Point(a, b)), ConnEnd(Point(c, d)), id);
-                    else {
-                        // With transactions off the 4-argument constructor routes inside setEndpoints() before
-                        // m_reroute_flag_ptr is assigned (connector.cpp:103) and fails COLA_ASSERT(m_reroute_flag_ptr
-                        // != nullptr) at connector.cpp:984 (reported to the coordinator); use the 2-argument form.
-                        ConnRef *cr = new ConnRef(router, id);
-                        cn[id] = cr;
-                        cr->setEndpoints(ConnEnd(Point(a, b)), ConnEnd(Point(c, d)));
-                    } }
-                else if (tag == "c") { int id; double a, b, c, d; std::cin >> id >> a >> b >> c >> d;   // always the 4-arg ctor
                     cn[id] = new ConnRef(router, ConnEnd(Point(a, b)), ConnEnd(Point(c, d)), id); }
                 else if (tag == "E") { int id, which; double x, y; std::cin >> id >> which >> x >> y;
                     if (which == 0) cn.at(id)->setSourceEndpoint(ConnEnd(Point(x, y)));
